@@ -14,6 +14,7 @@ import (
 
 	"verif/seqx/wsgen"
 	"verif/track"
+	"verif/vkit"
 	"verif/vsched"
 	"verif/vshim/vtime"
 )
@@ -128,6 +129,7 @@ func install(u *websocket.Upgrader, w *world, l *cbLog, onMsg func(c *websocket.
 
 func queuedBody(c qcfg) func() {
 	return func() {
+		vkit.Log.TakeErrors() // lines of a preceding execution that was cut short (pruned) are not this one's
 		w := &world{z: c.z}
 		tr := track.New(track.Pooled)
 		mempool.DefaultMemPool = tr
